@@ -517,6 +517,8 @@ class Skeleton:
                         nm = e[1].split("::")[-1]
                         if nm in ("len", "is_empty", "split_at", "split_at_checked") or e[1] in self.fns or pathsum.is_slice_get(("call",) + tuple(e[1:])):
                             continue   # span arithmetic, end-of-input tests (judged by C12-I) and slicing are not peeks at bytes
+                        if nm == "first" and e[2][0] == f["inp"] and self.peek_first_ok(f):
+                            continue   # one byte of lookahead that the chosen alternative consumes
                         for a in e[2]:
                             if self._is_input_slice(a, f, x):
                                 out[(path, e[3])] = (path, e[1], e[3], show_term(a))
@@ -525,6 +527,34 @@ class Skeleton:
                         if k[0] == "lit":   # input[k]: byte access
                             out[(path, e[3])] = (path, "index by constant", e[3], show_term(e[1]))
         return list(out.values())
+
+    def peek_first_ok(self, f):
+        """`input.first()` used to choose an alternative is no peek behind the unit when the byte looked at is consumed by
+        whatever accepts: every Ok exit on a path where first() was Some consumes at least one byte of that same input,
+        and every exit where it was None (end of input) is Err(Incomplete)."""
+        ps = f["ps"]
+        seen_some = seen_none = False
+        for x in f["exits"]:
+            some = None
+            for c in x.conds:
+                if c[0] == "is" and c[2] == SOME and c[1][0] == "call" and c[1][1].split("::")[-1] == "first" and c[1][2] and pathsum.strip_sites(c[1][2][0]) == pathsum.strip_sites(f["inp"]):
+                    some = c[3]
+            r = self.exit_result(x)
+            if some is None:
+                if r and any(okness == "ok" for okness, _ in r):
+                    return False        # accepts without the test having been made
+                continue
+            for (okness, payload) in r or []:
+                if some is False:
+                    seen_none = True
+                    if okness != "err" or self.err_kinds(payload, x, ps) != {"incomplete"}:
+                        return False
+                elif okness == "ok":
+                    seen_some = True
+                    ch = self.chain(self.rem_of(payload), f["inp"], x, ps)
+                    if ch is None or not any(c_[0] == "strict" for c_ in ch):
+                        return False
+        return seen_some and seen_none
 
     def _is_input_slice(self, t, f, x):
         if t == f["inp"]:
